@@ -215,6 +215,33 @@ CLAIMS = {
         design_ref="DESIGN.md section 4 C17",
         technique="pyvc proofs of dispatch functions + bounded run-time field comparison",
         note=TB + "; export_analysis and friends are bounded only"),
+    "C15": dict(
+        category="other",
+        text="Hybrid. Proved (pyvc): HierarchyWalker.visit_instance / visit_module / visit_instantiable leave "
+             "connections, names and hierarchy containers untouched on every exit (only Instance.of may change), total "
+             "dispatch over the instantiable kinds, with the PDK hooks as virtual callees; an AST audit shows no PDK "
+             "walker writes connections or names. Exhaustive over the PDK tables (evaluated on the real walkers): "
+             "every type/family/threshold triple, every model name and passive table entry for sample / Sky130 / "
+             "GF180 / ASAP7 with frame, selection, port compatibility, cache identity, export + spice/spectre "
+             "netlists, compile-twice, sizes, pdk.compile by module/name/default; logic cells sampled 1 in 16 (all in "
+             "thorough).",
+        design_ref="DESIGN.md section 4 C15",
+        technique="contract-based deductive verification of the walker frame (pyvc, z3) + exhaustive evaluation of "
+                  "the finite device tables",
+        note=TB + "; PDK hook overrides assumed to obey the frame (audited syntactically); three known findings "
+             "(generic 4/3-terminal primitives mapped to 5/4-terminal devices)"),
+    "C19": dict(
+        category="other",
+        text="Hybrid. Proved for all n (z3 lemmas over the array rule and Concat bit order): with c0 = Concat(P0, i), "
+             "c1 = Concat(i, P1), unit 0's first port is P0, unit n-1's second port is P1, consecutive units share "
+             "exactly i[k], i[k] touches nothing else, widths satisfy the per-element rule; _seriesconn proved by pyvc. "
+             "Bounded (labelled): exported structure of Series for four unit cells x all ordered port pairs x n in "
+             "{1,2,3,8} (1..16 thorough) by name and by Signal; rejections; MosStack == Series over (d, s); Wrapper "
+             "over modules with bus and bundle ports.",
+        design_ref="DESIGN.md section 4 C19",
+        technique="lemmas over contracts discharged by z3 for all n + pyvc proof of the port lookup + bounded "
+                  "structural check of the exported package",
+        note=TB + "; Series / Wrapper bodies themselves are bounded only (they drive the builder API)"),
 }
 
 NA_REASON = "check not built yet (work in progress; see DESIGN.md section 4 for the plan)"
